@@ -179,11 +179,6 @@ end core
 section clip
 variable {α : Type} [Field α] [LinearOrder α] [IsStrictOrderedRing α]
 
-/-- scalar operations of an ordered field with the real comparison -/
-def ordOps (sqrt : α → α) (eps : α) : Ops α :=
-  { zero := 0, one := 1, add := (· + ·), sub := (· - ·), mul := (· * ·), div := (· / ·),
-    sqrt := sqrt, lt := fun a b => decide (a < b), ofNat := fun n => (n : α), eps := eps }
-
 /-- whatever the numerator, denominator, overlap and thresholds: the reported MCC value lies in [-1, 1] -/
 theorem mcc_clipped (sqrt : α → α) (eps thousand ratio : α) (parts : α × α × α) (maxDen maxOv : α) :
     -1 ≤ mccFinish (ordOps sqrt eps) thousand ratio parts maxDen maxOv ∧
@@ -197,24 +192,6 @@ end clip
 
 section flc
 variable {α : Type} [Field α] [LinearOrder α] [IsStrictOrderedRing α]
-
-/-- what the square root has to satisfy (true of the real one) -/
-structure SqrtOk (sqrt : α → α) : Prop where
-  nonneg : ∀ x, 0 ≤ sqrt x
-  sq : ∀ x, 0 ≤ x → sqrt x * sqrt x = x
-
-theorem boxSum_ord (sqrt : α → α) (eps : α) : ∀ (ms : List Nat) (F : List Nat → α),
-    boxSum (ordOps sqrt eps) ms F = sumShape ms F
-  | [], F => rfl
-  | m :: ms, F => by
-    simp only [boxSum, sumShape]
-    have : ∀ i, boxSum (ordOps sqrt eps) ms (fun idx => F (i :: idx)) = sumShape ms (fun idx => F (i :: idx)) :=
-      fun i => boxSum_ord sqrt eps ms _
-    simp only [this]
-    exact foldl_range_add m _
-
-theorem max0_of_nonneg (sqrt : α → α) (eps x : α) (hx : 0 ≤ x) : (ordOps sqrt eps).max0 x = x := by
-  simp [Ops.max0, ordOps, not_lt.mpr hx]
 
 /-- **The FLC value the code's formula yields is in [-1, 1]** (squared form), for every target field `f`, every
 translation `t`, every template `G` and every non-negative mask `Wm` (binary, soft, interpolated) with positive
